@@ -199,6 +199,33 @@ Theorem C13_later_caller_succeeds_without_change :
   DynRemove.rm_all f s d name = Some (s', Ok tt) -> DynRemove.rm_all (S g) s' d name = Some (s', Ok tt).
 Proof. exact DynRemoveTotal.rm_all_again. Qed.
 
+(* ---- C13, the race clause on the model: [rc] is dir.rs remove_all with the environment removing entries -- what
+   every other remove_all caller does -- between any two of its system calls ([rc_env] applies at every point,
+   also between the unlinkat and the unlinkat(AT_REMOVEDIR) of remove_inode: the [shrinks] premises).  Without
+   interference it is rm_all, the function remove_all was refined to ([C13_interference_free_is_spec]).  For EVERY
+   interleaving, on a tree with unique short plain names, remove_all reports success, the name is gone, and nothing
+   was added or modified: every error a racing remover can cause (ENOENT from unlinkat, rmdir, the open; a listing
+   whose entries have vanished; a directory emptied or removed under our feet) is tolerated, and ENOTEMPTY after a
+   pass that saw nothing cannot happen because nobody adds. *)
+From PV Require DynRemoveConc.
+
+Theorem C13_interference_free_is_spec :
+  forall f s d n s' r, DynRemove.rm_all f s d n = Some (s', r) ->
+  DynRemoveConc.rc (DynRemoveConc.TAll d n) s s' (DynRemoveConc.lift r).
+Proof. exact DynRemoveConc.rm_all_rc. Qed.
+
+Theorem C13_converges_under_racing_removers :
+  forall s d n s' r, DynRemoveConc.rc (DynRemoveConc.TAll d n) s s' r ->
+  DynRemoveConc.tree_ok s -> DynRemoveConc.nm_ok n -> FSModel.is_dir s d = true ->
+  (exists b, r = Ok b) /\ FSModel.lookup s' d n = None /\ DynRemove.shrinks s s'.
+Proof. exact DynRemoveConc.remove_all_converges_under_racing_removers. Qed.
+
+(* executed: another remover takes a/f away between our rmdir (ENOTEMPTY) and our open of a/ *)
+Example C13_racing_run :
+  DynRemoveConc.rc (DynRemoveConc.TAll 0 (b "a")) DynRemoveConc.ex_s0 DynRemoveConc.ex_s2 (Ok true) /\
+  DynRemoveConc.tree_ok DynRemoveConc.ex_s0 /\ DynRemoveConc.nm_ok (b "a") /\ FSModel.is_dir DynRemoveConc.ex_s0 0 = true.
+Proof. exact DynRemoveConc.racing_run. Qed.
+
 (* executed (non-vacuity): a/ has a sub-directory with a file, a link to a sibling and a link to the
    outside; remove_all("a") on both backends removes a and everything below, follows neither link
    (keep/ and its content stay), returns Ok; the pure function gives the same tree; remove_all of a
@@ -240,3 +267,5 @@ Print Assumptions C13_remove_all_post_kernel_backend.
 Print Assumptions C13_remove_all_post_emulated_backend.
 Print Assumptions C13_absent_entry_is_success_without_change.
 Print Assumptions C13_later_caller_succeeds_without_change.
+Print Assumptions C13_interference_free_is_spec.
+Print Assumptions C13_converges_under_racing_removers.
